@@ -23,10 +23,12 @@ def view_digest(utxo, bal):
     return h.digest()
 
 
-def check_views(cs, uni, stored, out, hist, tag):
-    """every stored block: unspent set and per-key balances vs reference replay of that block's own chain"""
+def check_views(cs, uni, stored, out, hist, tag, reverse=False):
+    """every stored block: unspent set and per-key balances vs reference replay of that block's own chain.
+    reverse: query descendants before ancestors (what is computed on demand for a descendant must not leak into what
+    is reported for an ancestor)"""
     n_cmp = 0
-    for node in stored:
+    for node in (stored[::-1] if reverse else stored):
         n_cmp += 1
         where = "%s at block %s" % (tag, '/'.join(node.path) or '<root>')
         try:
@@ -95,7 +97,8 @@ def _worker(hists, quick_modes=False):
             # the last three, eagerly re-taken after further activity below)
             before = [ledger.fingerprint(s, balances=False) for s in snaps]
             stats['views'] += check_views(cs, uni, stored, out, hist, ('validated' if validated else 'unvalidated') +
-                                          (', balances read at %s between arrivals' % lookups if lookups else ''))
+                                          (', balances read at %s between arrivals' % lookups if lookups else '') +
+                                          (', newest block queried first' if not validated else ''), reverse=not validated)
             # also query every intermediate snapshot at its own head, then add one more block on top of the final
             # state and re-take all fingerprints
             for s, n in zip(snaps, stored):
